@@ -1,8 +1,9 @@
 /-
   C03 — the property theorems restated about the REGENERATED source.  `Props/C03Src.lean` proves that the definitions
   translated on every run from `Contribution.prepare`, `AbsorptionContribution.prepare` / `prepare_each`,
-  `CIAContribution.prepare_each` and the kernels `contribute_tau` / `contribute_cia` are the model's `sumComps`, `compAbs`,
-  `compCIA` and (called as `path_integral` calls them) `addContrib` of kind `lin` / `sq`; `Props/C03.lean` proves the property
+  `CIAContribution.prepare_each`, the kernels `contribute_tau` / `contribute_cia`, the three `contribute` methods and
+  `TransmissionModel.path_integral` are the model's `sumComps`, `compAbs`, `compCIA`, (called as `path_integral` calls them)
+  `addContrib` of kind `lin` / `sq` / `layerOnly`, and `tauCut` over the contribution list; `Props/C03.lean` proves the property
   about these.  The corollaries below compose the two: they are statements about the text of the code as it is now, at the
   real carrier.
 
@@ -16,17 +17,32 @@
     * `srcAbsComp … gases i` / `srcCIAComp … pairs i`: the `i`-th array the regenerated generator
       `AbsorptionContribution.prepare_each` / `CIAContribution.prepare_each` yields (= `compAbs` / `compCIA` on the layers,
       zero outside).  Tie hypothesis kept visible: position `i` exists in the list (`gases[i]? = some g`).
+    * `srcTrans newMethod … cs l wn`: entry `[l, wn]` of the `exp(-tau)` table the regenerated
+      `TransmissionModel.path_integral` returns for the contribution LIST `cs` (the loop over the layers, the loop over
+      `self.contribution_list` with its `tau[layer].min() > 10` break, `compute_absorption`; `contrib.contribute` resolved
+      to the three regenerated `contribute` methods by `C03Src.dispatch`); = `trans (tauCut … cs)` on the regenerated chord
+      row `srcPath` (tie hypotheses kept visible: `0 < total`, `l < n`, `wn < nwn`).  `cs = [c]` is one iteration of
+      `model_contrib`'s loop, `cs = [⟨κ, component⟩]` one of `model_full_contrib`'s.  `tauCut_single`,
+      `product_within_cutoff`, `order_within_cutoff` are restated with every transmittance the source's;
+      `transmittance_mul` with the per-contribution factors the source's and the total the documented integral `tauFull`
+      (the code has no loop without the break); `tauFull_append`, `tauFull_perm` (and `transmittance_mul` with both sides
+      the source's) for rows that come back unsaturated (`Unsaturated`: a condition on the RETURNED row), where the break
+      provably did not fire.
+    * `srcTauCloud`: the regenerated `SimpleCloudsContribution.contribute` on a zeroed table (kind `layerOnly`).
+    * `srcContribDict`: the dict the regenerated `SimpleForwardModel.model_contrib()` returns (the loop that sets
+      `self.contribution_list = [contrib]`, calls `contrib.prepare`, runs the regenerated `path_integral`, and stores the
+      result under `contrib.name`; `name` and the effect `prepare` of `contrib.prepare` on the object are parameters).
+      `product_within_cutoff` is restated with the factors READ FROM THAT DICT (`src_model_contrib_product`, for pairwise
+      distinct names); for colliding names the dict provably loses an entry (`src_model_contrib_collision`: the known
+      finding K4 as a theorem about the source).
 
   Not restated (no tie)
-    * `tauFull_append`, `tauFull_perm`, `transmittance_mul`, `tauCut_single`, `product_within_cutoff`,
-      `order_within_cutoff`: they speak of the loop over a LIST of contributions (`tauFull cs`, `tauCut cs`).  The C03
-      translation contains the kernels but not `path_integral` / `model_contrib`, so there is no regenerated expression for
-      the loop (it is tied, with the early exit, in `Props/C01Src.lean` from C01's own translation of `path_integral`; the
-      cut-off band about that definition is `C01SrcProps.src_depth_cut_within`).
+    * `SimpleForwardModel.model_full_contrib` (a generator-driven variant of the same loop: `for name, __ in
+      contrib.prepare_each(…)` re-running `path_integral` while the generator is suspended) is not translated; its iterations
+      are `srcTrans … [⟨κ, component⟩]` (`src_component_product_kinds`).
     * the `compScaled` (Rayleigh) conjunct of `sigma_prop`: the regenerated `RayleighContribution.prepare_each` skips
       molecules by a test on the mixing ratio itself, so the yielded lists of a profile and of its multiple are not
-      index-aligned; and kind `layerOnly` in `component_sum` / `component_product` / `tau_prop` (the cloud's `contribute` is
-      not in the C03 translation): the corollaries are for the kinds `lin` and `sq`.
+      index-aligned.
     * `nv_nonneg`: hypothesis builder for the examples.
 -/
 import Props.C03
@@ -194,5 +210,260 @@ theorem src_sigma_prop_cia (nW nL : ℕ) (T : ℕ → ℝ) (ciaXsec : ι → ℝ
   · simp
 
 end comps
+
+/-! ### the loop over a LIST of contributions: the regenerated `path_integral` -/
+
+section loop
+variable {newMethod : Bool} {rp rs : ℝ} {n nwn total : ℕ} {zb z dz dens : ℕ → ℝ}
+  {planetPaths : (ℕ → ℝ) → (ℕ → ℕ → ℝ) → (ℕ → ℕ → ℝ) → List (ℕ → ℝ)}
+
+/-- row `l` of the chord table the regenerated `path_integral` computes first (`self.path_length[l]`): the regenerated
+    `compute_path_length_old(dz)`, or for `new_path_method=True` the regenerated `compute_path_length()` (whose 3-D
+    geometry is the parameter `planetPaths`); `k ↦ 0` past the end of the list, as the loop reads it -/
+noncomputable def srcPath (newMethod : Bool) (rp : ℝ) (n : ℕ) (zb z dz : ℕ → ℝ)
+    (planetPaths : (ℕ → ℝ) → (ℕ → ℕ → ℝ) → (ℕ → ℕ → ℝ) → List (ℕ → ℝ)) (l : ℕ) : ℕ → ℝ :=
+  (if newMethod then Gen.SrcC03.compute_path_length dz n planetPaths rp zb z
+   else Gen.SrcC03.compute_path_length_old dz n rp z).getD l (fun _ => 0)
+
+/-- entry `[l, wn]` of the `exp(-tau)` table the regenerated `path_integral` returns for the contribution list `cs`
+    (`model()[2]`; with `cs = [c]` what `model_contrib` stores for `c`, with `cs = [⟨κ, component⟩]` what
+    `model_full_contrib` stores), Python's dynamic dispatch `contrib.contribute(…)` resolved to the three regenerated
+    `contribute` methods (`C03Src.dispatch`) -/
+noncomputable def srcTrans (newMethod : Bool) (rp rs : ℝ) (n nwn total : ℕ) (zb z dz dens : ℕ → ℝ)
+    (planetPaths : (ℕ → ℝ) → (ℕ → ℕ → ℝ) → (ℕ → ℕ → ℝ) → List (ℕ → ℝ)) (cs : List (Contrib ℝ)) (l wn : ℕ) : ℝ :=
+  (Gen.SrcC03.path_integral nwn cs (dispatch nwn total n) dz dens n newMethod planetPaths rp rs zb z).2 l wn
+
+/-- the tie: the returned transmittance is the model's loop WITH the early exit, `tauCut`, on the regenerated chords -/
+theorem srcTrans_eq (ht : 0 < total) (cs : List (Contrib ℝ)) (l wn : ℕ) (hl : l < n) (hwn : wn < nwn) :
+    srcTrans newMethod rp rs n nwn total zb z dz dens planetPaths cs l wn
+      = Transmission.trans (tauCut n nwn (srcPath newMethod rp n zb z dz planetPaths l) dens l cs wn) :=
+  (src_path_integral n nwn total ht rp rs z dz dens zb cs newMethod planetPaths).1 l hl wn hwn
+
+/-- `tauCut_single` about the source: the regenerated `path_integral` run on ONE contribution (`model_contrib`) is never
+    cut — it returns the documented integral of that contribution -/
+theorem src_tauCut_single (ht : 0 < total) (c : Contrib ℝ) (l wn : ℕ) (hl : l < n) (hwn : wn < nwn) :
+    srcTrans newMethod rp rs n nwn total zb z dz dens planetPaths [c] l wn
+      = Transmission.trans (tauFull n (srcPath newMethod rp n zb z dz planetPaths l) dens l [c] wn) := by
+  rw [srcTrans_eq ht [c] l wn hl hwn, tauCut_single n nwn (by omega)]
+
+/-- `transmittance_mul` about the source: the transmittance of the documented integral over the whole list (`tauFull`, the
+    sum without the early exit — the code has no such loop) is the product of what the regenerated `path_integral` returns
+    for each contribution alone -/
+theorem src_transmittance_mul (ht : 0 < total) (cs : List (Contrib ℝ)) (l wn : ℕ) (hl : l < n) (hwn : wn < nwn) :
+    Transmission.trans (tauFull n (srcPath newMethod rp n zb z dz planetPaths l) dens l cs wn)
+      = (cs.map (fun c => srcTrans newMethod rp rs n nwn total zb z dz dens planetPaths [c] l wn)).prod := by
+  rw [transmittance_mul]
+  congr 1
+  apply List.map_congr_left
+  intro c _
+  rw [src_tauCut_single ht c l wn hl hwn]
+
+/-- `product_within_cutoff` about the source: what the regenerated `path_integral` returns for the whole list is never
+    below the product of what it returns for each contribution alone (`model_contrib`), and exceeds it by at most
+    `exp(-10)` -/
+theorem src_product_within_cutoff (ht : 0 < total) (l : ℕ) (hl : l < n)
+    (hp : ∀ k < n - l, 0 ≤ srcPath newMethod rp n zb z dz planetPaths l k) (hd : ∀ j < n, 0 ≤ dens j)
+    (cs : List (Contrib ℝ)) (hcs : ∀ c ∈ cs, c.Nonneg) (wn : ℕ) (hwn : wn < nwn) :
+    (cs.map (fun c => srcTrans newMethod rp rs n nwn total zb z dz dens planetPaths [c] l wn)).prod
+        ≤ srcTrans newMethod rp rs n nwn total zb z dz dens planetPaths cs l wn ∧
+    srcTrans newMethod rp rs n nwn total zb z dz dens planetPaths cs l wn
+        - (cs.map (fun c => srcTrans newMethod rp rs n nwn total zb z dz dens planetPaths [c] l wn)).prod
+      ≤ Transmission.trans 10 := by
+  have e : (fun c => srcTrans newMethod rp rs n nwn total zb z dz dens planetPaths [c] l wn)
+      = fun c => Transmission.trans (tauCut n nwn (srcPath newMethod rp n zb z dz planetPaths l) dens l [c] wn) :=
+    funext fun c => srcTrans_eq ht [c] l wn hl hwn
+  rw [e, srcTrans_eq ht cs l wn hl hwn]
+  exact product_within_cutoff n nwn _ dens l hp hd cs hcs wn hwn
+
+/-- `order_within_cutoff` about the source: the regenerated `path_integral` run on two insertion orders of the same
+    contributions returns transmittances within `exp(-10)` of each other -/
+theorem src_order_within_cutoff (ht : 0 < total) (l : ℕ) (hl : l < n)
+    (hp : ∀ k < n - l, 0 ≤ srcPath newMethod rp n zb z dz planetPaths l k) (hd : ∀ j < n, 0 ≤ dens j)
+    (cs cs' : List (Contrib ℝ)) (hcs : ∀ c ∈ cs, c.Nonneg) (h : cs.Perm cs') (wn : ℕ) (hwn : wn < nwn) :
+    |srcTrans newMethod rp rs n nwn total zb z dz dens planetPaths cs l wn
+        - srcTrans newMethod rp rs n nwn total zb z dz dens planetPaths cs' l wn| ≤ Transmission.trans 10 := by
+  rw [srcTrans_eq ht cs l wn hl hwn, srcTrans_eq ht cs' l wn hl hwn]
+  exact order_within_cutoff n nwn _ dens l hp hd cs cs' hcs h wn hwn
+
+/-- what "the early exit did not fire in row `l`" looks like on the RETURNED table: some column of the row is not below
+    `exp(-10)` -/
+def Unsaturated (newMethod : Bool) (rp rs : ℝ) (n nwn total : ℕ) (zb z dz dens : ℕ → ℝ)
+    (planetPaths : (ℕ → ℝ) → (ℕ → ℕ → ℝ) → (ℕ → ℕ → ℝ) → List (ℕ → ℝ)) (cs : List (Contrib ℝ)) (l : ℕ) : Prop :=
+  ∃ w < nwn, Transmission.trans 10 ≤ srcTrans newMethod rp rs n nwn total zb z dz dens planetPaths cs l w
+
+/-- a row the regenerated `path_integral` returns unsaturated is exactly the documented integral over the whole list -/
+theorem srcTrans_eq_full (ht : 0 < total) (l : ℕ) (hl : l < n)
+    (hp : ∀ k < n - l, 0 ≤ srcPath newMethod rp n zb z dz planetPaths l k) (hd : ∀ j < n, 0 ≤ dens j)
+    (cs : List (Contrib ℝ)) (hcs : ∀ c ∈ cs, c.Nonneg)
+    (hU : Unsaturated newMethod rp rs n nwn total zb z dz dens planetPaths cs l) (wn : ℕ) (hwn : wn < nwn) :
+    srcTrans newMethod rp rs n nwn total zb z dz dens planetPaths cs l wn
+      = Transmission.trans (tauFull n (srcPath newMethod rp n zb z dz planetPaths l) dens l cs wn) := by
+  obtain ⟨w, hw, h10⟩ := hU
+  rw [srcTrans_eq ht cs l w hl hw] at h10
+  rw [srcTrans_eq ht cs l wn hl hwn, tauCut_eq_full_of_trans n nwn _ dens l hp hd cs hcs w hw h10 wn]
+
+/-- a sub-list of contributions of an unsaturated row is unsaturated too (its full sum is not larger) -/
+theorem unsaturated_of_le (ht : 0 < total) (l : ℕ) (hl : l < n)
+    (hp : ∀ k < n - l, 0 ≤ srcPath newMethod rp n zb z dz planetPaths l k) (hd : ∀ j < n, 0 ≤ dens j)
+    (cs ds : List (Contrib ℝ)) (hcs : ∀ c ∈ cs, c.Nonneg) (hds : ∀ c ∈ ds, c.Nonneg)
+    (hle : ∀ wn, tauFull n (srcPath newMethod rp n zb z dz planetPaths l) dens l ds wn
+      ≤ tauFull n (srcPath newMethod rp n zb z dz planetPaths l) dens l cs wn)
+    (hU : Unsaturated newMethod rp rs n nwn total zb z dz dens planetPaths cs l) :
+    Unsaturated newMethod rp rs n nwn total zb z dz dens planetPaths ds l := by
+  have hfull := srcTrans_eq_full ht l hl hp hd cs hcs hU
+  obtain ⟨w, hw, h10⟩ := hU
+  refine ⟨w, hw, ?_⟩
+  rw [hfull w hw] at h10
+  rw [srcTrans_eq ht ds l w hl hw]
+  exact h10.trans (trans_anti ((tauCut_le_full n nwn _ dens l hp hd ds hds w).trans (hle w)))
+
+/-- `tauFull_append` about the source: when the row of the concatenated list comes back unsaturated, the regenerated
+    `path_integral` is multiplicative over concatenation (the optical depths add) -/
+theorem src_tauFull_append (ht : 0 < total) (l : ℕ) (hl : l < n)
+    (hp : ∀ k < n - l, 0 ≤ srcPath newMethod rp n zb z dz planetPaths l k) (hd : ∀ j < n, 0 ≤ dens j)
+    (cs ds : List (Contrib ℝ)) (hcs : ∀ c ∈ cs, c.Nonneg) (hds : ∀ c ∈ ds, c.Nonneg)
+    (hU : Unsaturated newMethod rp rs n nwn total zb z dz dens planetPaths (cs ++ ds) l) (wn : ℕ) (hwn : wn < nwn) :
+    srcTrans newMethod rp rs n nwn total zb z dz dens planetPaths (cs ++ ds) l wn
+      = srcTrans newMethod rp rs n nwn total zb z dz dens planetPaths cs l wn
+        * srcTrans newMethod rp rs n nwn total zb z dz dens planetPaths ds l wn := by
+  have hall : ∀ c ∈ cs ++ ds, c.Nonneg := fun c hc => (List.mem_append.1 hc).elim (hcs c) (hds c)
+  have h1 : ∀ w, 0 ≤ tauFull n (srcPath newMethod rp n zb z dz planetPaths l) dens l cs w :=
+    tauFull_nonneg' n _ dens l hp hd cs hcs
+  have h2 : ∀ w, 0 ≤ tauFull n (srcPath newMethod rp n zb z dz planetPaths l) dens l ds w :=
+    tauFull_nonneg' n _ dens l hp hd ds hds
+  have hUc := unsaturated_of_le ht l hl hp hd (cs ++ ds) cs hall hcs
+    (fun w => by rw [tauFull_append]; linarith [h2 w]) hU
+  have hUd := unsaturated_of_le ht l hl hp hd (cs ++ ds) ds hall hds
+    (fun w => by rw [tauFull_append]; linarith [h1 w]) hU
+  rw [srcTrans_eq_full ht l hl hp hd (cs ++ ds) hall hU wn hwn, srcTrans_eq_full ht l hl hp hd cs hcs hUc wn hwn,
+    srcTrans_eq_full ht l hl hp hd ds hds hUd wn hwn, tauFull_append, trans_add]
+
+/-- `tauFull_perm` about the source: when the row comes back unsaturated, the regenerated `path_integral` returns the
+    same row for every insertion order of the contributions -/
+theorem src_tauFull_perm (ht : 0 < total) (l : ℕ) (hl : l < n)
+    (hp : ∀ k < n - l, 0 ≤ srcPath newMethod rp n zb z dz planetPaths l k) (hd : ∀ j < n, 0 ≤ dens j)
+    (cs cs' : List (Contrib ℝ)) (hcs : ∀ c ∈ cs, c.Nonneg) (h : cs.Perm cs')
+    (hU : Unsaturated newMethod rp rs n nwn total zb z dz dens planetPaths cs l) (wn : ℕ) (hwn : wn < nwn) :
+    srcTrans newMethod rp rs n nwn total zb z dz dens planetPaths cs l wn
+      = srcTrans newMethod rp rs n nwn total zb z dz dens planetPaths cs' l wn := by
+  have hcs' : ∀ c ∈ cs', c.Nonneg := fun c hc => hcs c (h.mem_iff.2 hc)
+  have hU' := unsaturated_of_le ht l hl hp hd cs cs' hcs hcs'
+    (fun w => le_of_eq (tauFull_perm n _ dens l cs cs' h w).symm) hU
+  rw [srcTrans_eq_full ht l hl hp hd cs hcs hU wn hwn, srcTrans_eq_full ht l hl hp hd cs' hcs' hU' wn hwn,
+    tauFull_perm n _ dens l cs cs' h wn]
+
+/-- `transmittance_mul`, both sides the source: an unsaturated row of the regenerated `path_integral` is exactly the
+    product of the rows it returns for each contribution alone -/
+theorem src_transmittance_mul_unsaturated (ht : 0 < total) (l : ℕ) (hl : l < n)
+    (hp : ∀ k < n - l, 0 ≤ srcPath newMethod rp n zb z dz planetPaths l k) (hd : ∀ j < n, 0 ≤ dens j)
+    (cs : List (Contrib ℝ)) (hcs : ∀ c ∈ cs, c.Nonneg)
+    (hU : Unsaturated newMethod rp rs n nwn total zb z dz dens planetPaths cs l) (wn : ℕ) (hwn : wn < nwn) :
+    srcTrans newMethod rp rs n nwn total zb z dz dens planetPaths cs l wn
+      = (cs.map (fun c => srcTrans newMethod rp rs n nwn total zb z dz dens planetPaths [c] l wn)).prod := by
+  rw [srcTrans_eq_full ht l hl hp hd cs hcs hU wn hwn, src_transmittance_mul ht cs l wn hl hwn]
+
+/-- `component_product` for EVERY kind (also the cloud's `layerOnly`), as `model_full_contrib` computes it: the regenerated
+    `path_integral` run on a contribution whose `sigma_xsec` the regenerated `Contribution.prepare` summed from `comps`
+    returns the product of the rows it returns for each component alone -/
+theorem src_component_product_kinds (ht : 0 < total) (κ : Kind) (nW nL : ℕ) (comps : List (ℕ → ℕ → ℝ)) (l wn : ℕ)
+    (hl : l < n) (hwn : wn < nwn) :
+    srcTrans newMethod rp rs n nwn total zb z dz dens planetPaths
+        [{ kind := κ, sigma := Gen.SrcC03.contribution_prepare nW comps nL }] l wn
+      = (comps.map (fun s => srcTrans newMethod rp rs n nwn total zb z dz dens planetPaths
+          [{ kind := κ, sigma := s }] l wn)).prod := by
+  have e : (fun s => srcTrans newMethod rp rs n nwn total zb z dz dens planetPaths [{ kind := κ, sigma := s }] l wn)
+      = fun s => Transmission.trans
+          (tauFull n (srcPath newMethod rp n zb z dz planetPaths l) dens l [{ kind := κ, sigma := s }] wn) :=
+    funext fun s => src_tauCut_single ht _ l wn hl hwn
+  rw [src_tauCut_single ht _ l wn hl hwn, src_contribution_prepare nL nW comps, e]
+  exact component_product n _ dens l κ comps wn
+
+end loop
+
+/-! ### the cloud deck: `SimpleCloudsContribution.contribute` (kind `layerOnly`) -/
+
+/-- entry `[l, wn]` of `tau` after the regenerated `SimpleCloudsContribution.contribute` ran on a zeroed table -/
+noncomputable def srcTauCloud (nL nW : ℕ) (l : ℕ) (sigma : ℕ → ℕ → ℝ) (wn : ℕ) : ℝ :=
+  Gen.SrcC03.clouds_contribute l (fun _ _ => 0) nL nW sigma l wn
+
+theorem srcTauCloud_eq (n nL nW : ℕ) (path dens : ℕ → ℝ) (l : ℕ) (sigma : ℕ → ℕ → ℝ) (wn : ℕ) :
+    srcTauCloud nL nW l sigma wn = tauFull n path dens l [{ kind := .layerOnly, sigma := sigma }] wn := by
+  unfold srcTauCloud
+  rw [src_clouds_contribute n l nL nW sigma dens path]
+  simp only [if_true]
+  rfl
+
+/-- `component_sum` for kind `layerOnly` about the regenerated cloud method -/
+theorem src_component_sum_cloud (nL nW : ℕ) (l : ℕ) (comps : List (ℕ → ℕ → ℝ)) (wn : ℕ) :
+    srcTauCloud nL nW l (Gen.SrcC03.contribution_prepare nW comps nL) wn
+      = (comps.map (fun s => srcTauCloud nL nW l s wn)).sum := by
+  have e : (fun s => srcTauCloud nL nW l s wn)
+      = fun s => tauFull 0 (fun _ => 0) (fun _ => 0) l [{ kind := .layerOnly, sigma := s }] wn :=
+    funext fun s => srcTauCloud_eq 0 nL nW (fun _ => 0) (fun _ => 0) l s wn
+  rw [srcTauCloud_eq 0 nL nW (fun _ => 0) (fun _ => 0), src_contribution_prepare nL nW comps, e]
+  exact component_sum 0 _ _ l .layerOnly comps wn
+
+/-- `tau_prop` for kind `layerOnly` about the regenerated cloud method -/
+theorem src_tau_prop_cloud (nL nW : ℕ) (l : ℕ) (sig : ℕ → ℕ → ℝ) (s : ℝ) (wn : ℕ) :
+    srcTauCloud nL nW l (fun a b => s * sig a b) wn = s * srcTauCloud nL nW l sig wn := by
+  rw [srcTauCloud_eq 0 nL nW (fun _ => 0) (fun _ => 0), srcTauCloud_eq 0 nL nW (fun _ => 0) (fun _ => 0)]
+  exact tau_prop 0 _ _ l .layerOnly sig s wn
+
+/-! ### `model_contrib`: the per-contribution loop and the dict it returns -/
+
+section contrib
+variable {newMethod : Bool} {rp rs : ℝ} {n nwn total : ℕ} {zb z dz dens grid : ℕ → ℝ}
+  {planetPaths : (ℕ → ℝ) → (ℕ → ℕ → ℝ) → (ℕ → ℕ → ℝ) → List (ℕ → ℝ)}
+
+/-- the dict the regenerated `SimpleForwardModel.model_contrib()` returns: `name` reads `contrib.name`, `prepare` is the
+    effect of `contrib.prepare(…)` on the contribution (what `model()` applies to every contribution as well) -/
+noncomputable def srcContribDict (newMethod : Bool) (rp rs : ℝ) (n nwn total : ℕ) (zb z dz dens grid : ℕ → ℝ)
+    (planetPaths : (ℕ → ℝ) → (ℕ → ℕ → ℝ) → (ℕ → ℕ → ℝ) → List (ℕ → ℝ)) (name : Contrib ℝ → String)
+    (prepare : Contrib ℝ → Contrib ℝ) (cs : List (Contrib ℝ)) : List (String × ((ℕ → ℝ) × (ℕ → ℕ → ℝ))) :=
+  (Gen.SrcC03.model_contrib cs (dispatch nwn total n) dz dens n nwn name grid newMethod planetPaths prepare rp rs zb z).2
+
+/-- contributions with pairwise distinct names: the dict has one entry per contribution, in order, holding what the
+    regenerated `path_integral` returns for that contribution ALONE -/
+theorem src_model_contrib_entries (name : Contrib ℝ → String) (prepare : Contrib ℝ → Contrib ℝ) (cs : List (Contrib ℝ))
+    (hnd : (cs.map (fun c => name (prepare c))).Nodup) :
+    srcContribDict newMethod rp rs n nwn total zb z dz dens grid planetPaths name prepare cs
+      = cs.map (fun c => (name (prepare c),
+          Gen.SrcC03.path_integral nwn [prepare c] (dispatch nwn total n) dz dens n newMethod planetPaths rp rs zb z)) := by
+  unfold srcContribDict
+  rw [src_model_contrib]
+  simpa using dictFill_nodup (fun c => name (prepare c)) _ cs [] (by simpa using hnd)
+
+/-- `product_within_cutoff` with `model_contrib` itself regenerated: for distinct names, the product of the transmittances
+    stored in the dict `model_contrib()` returns is never above what `path_integral` returns for the whole (prepared) list,
+    and falls short of it by at most `exp(-10)` -/
+theorem src_model_contrib_product (ht : 0 < total) (name : Contrib ℝ → String) (prepare : Contrib ℝ → Contrib ℝ)
+    (l : ℕ) (hl : l < n) (hp : ∀ k < n - l, 0 ≤ srcPath newMethod rp n zb z dz planetPaths l k) (hd : ∀ j < n, 0 ≤ dens j)
+    (cs : List (Contrib ℝ)) (hcs : ∀ c ∈ cs, (prepare c).Nonneg)
+    (hnd : (cs.map (fun c => name (prepare c))).Nodup) (wn : ℕ) (hwn : wn < nwn) :
+    ((srcContribDict newMethod rp rs n nwn total zb z dz dens grid planetPaths name prepare cs).map
+        (fun e => e.2.2 l wn)).prod
+        ≤ srcTrans newMethod rp rs n nwn total zb z dz dens planetPaths (cs.map prepare) l wn ∧
+    srcTrans newMethod rp rs n nwn total zb z dz dens planetPaths (cs.map prepare) l wn
+        - ((srcContribDict newMethod rp rs n nwn total zb z dz dens grid planetPaths name prepare cs).map
+            (fun e => e.2.2 l wn)).prod ≤ Transmission.trans 10 := by
+  rw [src_model_contrib_entries name prepare cs hnd, List.map_map]
+  have e : (cs.map ((fun e : String × ((ℕ → ℝ) × (ℕ → ℕ → ℝ)) => e.2.2 l wn) ∘ fun c => (name (prepare c),
+        Gen.SrcC03.path_integral nwn [prepare c] (dispatch nwn total n) dz dens n newMethod planetPaths rp rs zb z)))
+      = (cs.map prepare).map (fun c => srcTrans newMethod rp rs n nwn total zb z dz dens planetPaths [c] l wn) := by
+    rw [List.map_map]; rfl
+  rw [e]
+  exact src_product_within_cutoff ht l hl hp hd (cs.map prepare)
+    (fun c hc => by obtain ⟨c', hc', rfl⟩ := List.mem_map.1 hc; exact hcs c' hc') wn hwn
+
+/-- K4 about the source: when two contributions carry the same name, the dict `model_contrib()` returns has FEWER entries
+    than there are contributions (the later one replaced the earlier), so no product over its entries can be the model's -/
+theorem src_model_contrib_collision (name : Contrib ℝ → String) (prepare : Contrib ℝ → Contrib ℝ) (cs : List (Contrib ℝ))
+    (hdup : ¬ (cs.map (fun c => name (prepare c))).Nodup) :
+    (srcContribDict newMethod rp rs n nwn total zb z dz dens grid planetPaths name prepare cs).length < cs.length := by
+  unfold srcContribDict
+  rw [src_model_contrib]
+  simpa using dictFill_length_lt (fun c => name (prepare c)) _ cs [] (by simpa using hdup) (by simp)
+
+end contrib
 
 end Taurex.C03SrcProps
